@@ -242,6 +242,24 @@ impl Ck<'_, '_> {
         ok
     }
 
+    /// an expected key / item was not found among the shown ones: if one of the unused shown entries differs from it ONLY by
+    /// failures of an already classified class (e.g. the entry is an enum that shows no variant), report that class
+    fn diagnose_miss<'v>(&mut self, shown: impl Iterator<Item = &'v Value>, ty: &Ty, t: &T) -> Option<Vec<(String, String)>> {
+        const CLASSIFIED: &[&str] = &["enum-with-128-bit-discriminant-shows-no-variant", "enum-unsigned-discriminant-with-top-bit-set-shows-no-variant",
+            "enum-unsigned-discriminant-with-top-bit-set-shows-wrong-variant", "cenum-discriminant-above-i64-max-not-shown",
+            "enum-single-variant-shows-no-variant", "btree-empty-never-filled-shown-as-raw-structure", "array-type-name-lacks-length"];
+        let mut best: Option<Vec<(String, String)>> = None;
+        for sk in shown {
+            let saved = std::mem::take(&mut self.fails);
+            let (e, d) = (self.evals, self.derefs.len());
+            self.check(sk, ty, t, "<key>");
+            let got = std::mem::replace(&mut self.fails, saved);
+            self.evals = e; self.derefs.truncate(d);
+            if !got.is_empty() && got.iter().all(|(k, _)| CLASSIFIED.contains(&k.as_str())) && best.as_ref().map(|b| got.len() < b.len()).unwrap_or(true) { best = Some(got); }
+        }
+        best
+    }
+
     fn deref_ptr(&mut self, p: &bugstalker::debugger::variable::value::PointerValue, path: &str) -> Option<Value> {
         let r = p.deref(self.pcx);
         if let (Some(v), Some(addr), Some(tt)) = (&r, p.value, p.target_type) {
@@ -258,7 +276,9 @@ impl Ck<'_, '_> {
         let shown = strip_paths(&value_tyname(v)).replace(", Global", "");
         let want = self.defs.name(ty).replace(", Global", "");
         if shown != want {
-            let key = if matches!(ty, Ty::Array(..)) && shown == format!("[{}]", self.defs.name(match ty { Ty::Array(e, _) => e, _ => unreachable!() }).replace(", Global", "")) { "array-type-name-lacks-length".to_string() }
+            let want_nolen = { let mut o = String::new(); let cs: Vec<char> = want.chars().collect(); let mut i = 0;
+                while i < cs.len() { if cs[i] == ';' && i + 1 < cs.len() && cs[i + 1] == ' ' { let mut j = i + 2; while j < cs.len() && cs[j].is_ascii_digit() { j += 1; } if j > i + 2 { i = j; continue; } } o.push(cs[i]); i += 1; } o };
+            let key = if matches!(ty, Ty::Array(..)) && shown == want_nolen { "array-type-name-lacks-length".to_string() }
                       else { format!("type-name-{fam}") };
             self.fail(&key, format!("{path}: type shown as `{}` (paths stripped: `{shown}`), the Rust type is `{want}`", value_tyname(v)));
         }
@@ -367,7 +387,12 @@ impl Ck<'_, '_> {
                 for (k, val) in ts {
                     let mut hit = None;
                     for (i, (sk, _)) in m.kv_items.iter().enumerate() { if !used[i] && self.matches(sk, kt, k) { hit = Some(i); break; } }
-                    match hit { None => { self.fail(&format!("{fam}-entry-missing"), format!("{path}: key {k:?} not shown")); if self.fails.len() > 4 { return; } }
+                    match hit { None => {
+                                    let cands: Vec<&Value> = m.kv_items.iter().enumerate().filter(|(i, _)| !used[*i]).map(|(_, kv)| &kv.0).collect();
+                                    match self.diagnose_miss(cands.into_iter(), kt, k) {
+                                        Some(fs) => { for (key, msg) in fs { self.fail(&key, format!("{path}: a key of the map: {msg}")); } return; }
+                                        None => self.fail(&format!("{fam}-entry-missing"), format!("{path}: key {k:?} not shown")) }
+                                    if self.fails.len() > 4 { return; } }
                                 Some(i) => { used[i] = true; self.check(&m.kv_items[i].1, vt, val, &format!("{path}[{k:?}]")); } }
                 }
                 if used.iter().any(|u| !u) && m.kv_items.len() <= ts.len() { self.fail(&format!("{fam}-entry-invented-or-duplicated"), format!("{path}: {} shown entries match no entry of the program", used.iter().filter(|u| !**u).count())); }
@@ -380,7 +405,13 @@ impl Ck<'_, '_> {
                 for k in ts {
                     let mut hit = None;
                     for (i, sk) in m.items.iter().enumerate() { if !used[i] && self.matches(sk, kt, k) { hit = Some(i); break; } }
-                    match hit { None => { self.fail(&format!("{fam}-entry-missing"), format!("{path}: item {k:?} not shown")); if self.fails.len() > 4 { return; } } Some(i) => used[i] = true }
+                    match hit { None => {
+                                    let cands: Vec<&Value> = m.items.iter().enumerate().filter(|(i, _)| !used[*i]).map(|(_, x)| x).collect();
+                                    match self.diagnose_miss(cands.into_iter(), kt, k) {
+                                        Some(fs) => { for (key, msg) in fs { self.fail(&key, format!("{path}: an item of the set: {msg}")); } return; }
+                                        None => self.fail(&format!("{fam}-entry-missing"), format!("{path}: item {k:?} not shown")) }
+                                    if self.fails.len() > 4 { return; } }
+                                Some(i) => used[i] = true }
                 }
                 if used.iter().any(|u| !u) && m.items.len() <= ts.len() { self.fail(&format!("{fam}-entry-invented-or-duplicated"), format!("{path}: {} shown items match no item of the program", used.iter().filter(|u| !**u).count())); }
             }
@@ -405,6 +436,7 @@ impl Ck<'_, '_> {
                 if len != Some(ts.len() as i64) { self.fail("slice-length", format!("{path}: length shown {len:?}, the program holds {}", ts.len())); return; }
                 let Some(Value::Pointer(p)) = s.members.iter().find(|m| m.field_name.as_deref() == Some("data_ptr")).map(|m| &m.value) else { self.fail("slice-no-data-ptr", format!("{path}: no data_ptr")); return };
                 if ts.is_empty() { return; }
+                if p.target_type.and_then(|t| self.pcx.type_graph.type_size_in_bytes(self.pcx.evcx, t)) == Some(0) { return; } // C08 key ptr-slice-zero-sized-element-panics
                 match p.slice(self.pcx, None, ts.len()) {
                     Some(Value::Array(a)) => {
                         if let (Some(addr), Some(tt)) = (p.value, p.target_type) { self.derefs.push(("s", tt, vec![addr as usize, 0, ts.len()], Value::Array(a.clone()))); }
@@ -505,6 +537,11 @@ impl Worker<'_> {
     fn at_range_end(&self, name: &str) -> bool {
         self.loclists.get(name).map(|rs| !rs.iter().any(|(a, b)| *a <= self.pc && self.pc < *b) && rs.iter().any(|(_, b)| *b == self.pc)).unwrap_or(false)
     }
+    /// the variable is described by a location LIST and no range of it covers the stop pc: DWARF gives it no location here
+    fn no_location(&self, name: &str) -> bool { self.no_location_here(name) }
+    fn no_location_here(&self, name: &str) -> bool {
+        self.loclists.get(name).map(|rs| !rs.iter().any(|(a, b)| *a <= self.pc && self.pc < *b)).unwrap_or(false)
+    }
     fn handle(&mut self, qr: &QueryResult, var: &Var, defs: &Defs, what: &str) {
         self.stat(&format!("family:{}", var.family));
         if var.shape != "-" { self.stat(&format!("shape:{}:{}", var.family, var.shape)); }
@@ -546,6 +583,11 @@ impl Worker<'_> {
             }
             None => self.stat("k-skipped:no-address"),
         }
+        // no location at this pc (a gap of the location list) and the debugger shows the variable WITHOUT data: nothing to compare
+        if self.no_location(&var.name) && !self.at_range_end(&var.name) && v.in_memory_location().is_none() {
+            self.stat("no-location-at-stop-pc:shown-without-value");
+            return;
+        }
         // O: ground truth (+ K lines for the dereferences made on the way)
         let mut fails = vec![]; let mut evals = 0; let mut derefs = vec![];
         let _ = qr.clone().modify_value(|pcx, val| {
@@ -560,10 +602,18 @@ impl Worker<'_> {
         // DWARF says "no location here"; whatever is shown comes from the stale entry
         let at_range_end = self.at_range_end(&var.name);
         if at_range_end { self.stat("stop-at-exclusive-end-of-location-range"); }
-        if let (Some(h), false) = (var.hint, fails.is_empty()) {
+        if self.no_location_here(&var.name) {
+            // no range of the variable's location list covers the stop pc (the compiler's description, e.g. a by-reference argument
+            // between the overwrite of its register and its reload from the stack): nothing of the program's value can be shown
+            // - no verdict on the value - and nothing may be read: bytes fetched here come from an entry that does not apply
+            self.stat("no-verdict:no-location-at-stop-pc");
+            if let Some(addr) = v.in_memory_location() {
+                let key = if at_range_end { "location-list-range-end-treated-as-inclusive" } else { "value-read-where-dwarf-gives-no-location" };
+                self.oracle(key, &format!("{what} {}: no location-list range of the variable covers the stop pc {:#x}{}, yet a value is read (at {addr:#x}, from an entry that does not apply){}", var.name, self.pc,
+                    if at_range_end { " (it is the exclusive end of a range)" } else { "" }, fails.first().map(|f| format!(": {}", f.1)).unwrap_or_default()), &var.name);
+            }
+        } else if let (Some(h), false) = (var.hint, fails.is_empty()) {
             self.oracle(h, &format!("{what} {}", fails[0].1), &var.name);
-        } else if at_range_end && !fails.is_empty() {
-            self.oracle("location-list-range-end-treated-as-inclusive", &format!("{what} {}: the stop pc {:#x} is the exclusive end of a location-list range of the variable and no range covers it, yet a value is shown (from the stale entry): {}", var.name, self.pc, fails[0].1), &var.name);
         } else {
             for (key, msg) in fails.into_iter().take(3) { self.oracle(&key, &format!("{what} {msg}"), &var.name); }
         }
@@ -600,7 +650,7 @@ fn session(s: &Session, emit: &mut dyn FnMut(String)) {
         let locals = match dbg.read_local_variables() { Ok(v) => v, Err(e) => { w.oracle("read-local-variables-fails", &e.to_string(), ""); vec![] } };
         for var in &s.prog.locals {
             let found: Vec<&QueryResult> = locals.iter().filter(|q| q.identity().name.as_deref() == Some(&var.name)).collect();
-            if found.is_empty() && w.at_range_end(&var.name) { w.stat("not-shown-at-exclusive-end-of-location-range"); continue; }
+            if found.is_empty() && w.no_location(&var.name) { w.stat("no-location-at-stop-pc:not-shown"); continue; }
             if found.len() != 1 { w.oracle(&format!("variable-shown-{}-times", found.len().min(2)), &format!("local {} of type {} is shown {} times", var.name, s.prog.defs.src(&var.ty), found.len()), &var.name); continue; }
             w.handle(found[0], var, &s.prog.defs, "local");
         }
@@ -622,7 +672,7 @@ fn session(s: &Session, emit: &mut dyn FnMut(String)) {
         let args = match dbg.read_argument(Dqe::Variable(Selector::Any)) { Ok(v) => v, Err(e) => { w.oracle("read-arguments-fails", &e.to_string(), ""); vec![] } };
         for var in &s.prog.args {
             let found: Vec<&QueryResult> = args.iter().filter(|q| q.identity().name.as_deref() == Some(&var.name)).collect();
-            if found.is_empty() && w.at_range_end(&var.name) { w.stat("not-shown-at-exclusive-end-of-location-range"); continue; }
+            if found.is_empty() && w.no_location(&var.name) { w.stat("no-location-at-stop-pc:not-shown"); continue; }
             if found.len() != 1 { w.oracle(&format!("argument-shown-{}-times", found.len().min(2)), &format!("argument {} is shown {} times", var.name, found.len()), &var.name); continue; }
             w.handle(found[0], var, &s.prog.defs, "argument");
         }
@@ -672,7 +722,7 @@ pub fn exec(req: &[String], out: &mut Out, tmpdir: &Path) {
         }
     }
     let par = std::env::var("VERIF_PAR").ok().and_then(|v| v.parse().ok()).unwrap_or(4usize).min(4);
-    let results = run_sessions(&sessions, tmpdir, "c06", par, session_timeout().max(180), |s, emit| session(s, emit));
+    let results = run_sessions(&sessions, tmpdir, "c06", par, session_timeout(), |s, emit| session(s, emit));
     for (s, (lines, how)) in sessions.iter().zip(results) {
         let id = format!("C06 new {} {} {} {}", s.tc, s.profile, s.seed, s.minor);
         if let Some(e) = &s.compile_error {
